@@ -73,11 +73,11 @@ func GenReq(t *rapid.T, label string, g QGen, depth int, nums []float64) Req {
 }
 
 type c05Layout struct {
-	Name  string     `json:"name"`
-	Cfg   Config     `json:"cfg"`
-	Steps []c01Step  `json:"-"`
-	Post  []string   `json:"post,omitempty"`
-	NStep int        `json:"nsteps"`
+	Name  string    `json:"name"`
+	Cfg   Config    `json:"cfg"`
+	Steps []c01Step `json:"-"`
+	Post  []string  `json:"post,omitempty"`
+	NStep int       `json:"nsteps"`
 }
 
 func flattenOps(steps []c01Step) []Op {
